@@ -529,6 +529,18 @@ def h_einsum(I, args, kw, st, n):
     return Arr([(ai, ac)], sum_over(aj, ad, prod))
 
 
+def h_vecdot(I, args, kw, st, n):
+    """np.vecdot(a, b, axis=-1) = sum_k conj(a[..., k]) * b[..., k]  (the FIRST argument is conjugated)."""
+    if len(args) < 2: return Opaque("vecdot arguments")
+    ax = to_x(kw.get("axis", X.const(-1)))
+    A, B = as_arr(args[0]), as_arr(args[1])
+    if A is None or B is None or A.ndim != 2 or B.ndim != 2 or ax is None or ax.as_int() not in (-1, 1): return Opaque("vecdot operands")
+    (ai, ac), (aj, ad) = A.axes; (bi, bc), (bj, bd) = B.axes
+    if not ad.eq(bd): return Mismatch(f"vecdot contraction lengths differ: {ad!r} vs {bd!r}")
+    prod = lift2("*", lift1(lambda x: x.conj(), A.body), subst_val(B.body, {bi: X.var(ai), bj: X.var(aj)}))
+    return Arr([(ai, ac)], sum_over(aj, ad, prod))
+
+
 def h_repeat(I, args, kw, st, n):
     v, cnt = args[0], to_x(args[1])
     if to_x(v) is None or cnt is None: return Opaque("np.repeat")
@@ -765,6 +777,7 @@ _reg("numpy.pad", h_pad)
 _reg("numpy.correlate", h_correlate)
 _reg("numpy.lib.stride_tricks.sliding_window_view", h_sliding)
 _reg("numpy.einsum", h_einsum)
+_reg("numpy.vecdot numpy.linalg.vecdot", h_vecdot)
 _reg("numpy.repeat", h_repeat)
 _reg("numpy.fft.fftfreq", h_fftfreq)
 _reg("numpy.searchsorted", h_searchsorted)
